@@ -77,6 +77,10 @@ func auditScenarios(quick bool) []vexplore.Scenario {
 	// --- a second scanner
 	add(acfg{n: 2, b: 3, d: 1, v: variant{twin: twinSequential}}, acfg{n: 2, b: 3, d: 1, v: variant{twin: twinConcurrent}}, acfg{n: 1, b: 3, d: 1, v: variant{twin: twinConcurrent}},
 		acfg{n: 3, b: 2, d: 1, v: variant{twin: twinConcurrent}}, acfg{n: 2, b: 3, d: 1, v: variant{twin: twinConcurrent, ctx: ctxNil}})
+	// --- two scanners at once whose readers hand over half-filled buffers (another thread runs
+	// in the middle of an io.ReadFull): whatever the scanners share below their own state shows
+	add(acfg{n: 1, b: 2, d: 1, v: variant{twin: twinConcurrent, reader: readerHalves}}, acfg{n: 2, b: 2, d: 1, v: variant{twin: twinConcurrent, reader: readerHalves}},
+		acfg{n: 2, b: 3, d: 0, v: variant{twin: twinConcurrent, reader: readerHalves}}, acfg{n: 2, b: 3, d: 1, v: variant{reader: readerHalves}})
 	// --- switch mode on the shapes that had only delay bounding
 	add(acfg{n: 2, b: 4, d: 1, nohdr: true, sw: true}, acfg{n: 2, b: 5, d: 1, empty: emptyByFilter, sw: true}, acfg{n: 2, b: 6, d: 1, v: variant{shape: shapeUneven}, sw: true},
 		acfg{n: 2, b: 5, d: 1, empty: emptyBySkip, sw: true}, acfg{n: 1, b: 3, d: 1, sw: true})
